@@ -257,10 +257,10 @@ Partition ==
     /\ ~LinkBlind => rep.untracked \cap Present(index) = {}
     /\ rep.unstaged \subseteq Present(index)
 
-\* round trip: right after a checkout or a branch switch the directory holds the tree, the
-\* index writes the same tree and nothing tracked is reported
+\* round trip: right after a checkout, a branch switch or a hard reset the directory holds the
+\* tree, the index writes the same tree and nothing tracked is reported
 RoundTrip ==
-    last.act \in {"Checkout", "Switch"} =>
+    last.act \in {"Checkout", "Switch", "ResetHard"} =>
         /\ index = head
         /\ \A p \in Present(head) : wd[p] = head[p]
         /\ rep.add = {} /\ rep.del = {} /\ rep.mod = {} /\ rep.unstaged = {}
